@@ -146,8 +146,15 @@ Fixpoint iapis (s : ist) (os : list iop) : ist * list ievent :=
                 let '(s2, e2) := iapis s1 os' in (s2, e1 ++ e2)
   end.
 
-(* the event bits of uv__inotify_read *)
+(* the event bits of uv__inotify_read (linux.c 2607-2612, since 5f75e89: IN_ISDIR only
+   qualifies the event, it is not a reason for UV_RENAME) *)
+Definition IN_ISDIR : Z := 1073741824.
 Definition ev_bits (mask : Z) : Z :=
+  (if Z.land mask (Z.lor IN_ATTRIB IN_MODIFY) =? 0 then 0 else UV_CHANGE) +
+  (if Z.land mask (Z.lnot (Z.lor (Z.lor IN_ATTRIB IN_MODIFY) IN_ISDIR)) =? 0 then 0 else UV_RENAME).
+
+(* history: the mapping before 5f75e89 *)
+Definition ev_bits_old (mask : Z) : Z :=
   (if Z.land mask (Z.lor IN_ATTRIB IN_MODIFY) =? 0 then 0 else UV_CHANGE) +
   (if Z.land mask (Z.lnot (Z.lor IN_ATTRIB IN_MODIFY)) =? 0 then 0 else UV_RENAME).
 
